@@ -197,7 +197,11 @@ func TO2(ctx context.Context, transport Transport, to1d *cose.Sign1[protocol.To1
 	defer func() { _ = serviceInfoWriter.Close() }()
 
 	// Send devmod KVs in initial ServiceInfo
-	go c.Devmod.Write(ctx, c.DeviceModules, sendMTU, serviceInfoWriter)
+	//
+	// The devmod module list is chunked for the size a single KV may take,
+	// which is what exchangeServiceInfo reads with: the MTU less the 5 bytes
+	// of DeviceServiceInfo framing.
+	go c.Devmod.Write(ctx, c.DeviceModules, sendMTU-5, serviceInfoWriter)
 
 	// Loop, sending and receiving service info until done
 	if err := exchangeServiceInfo(ctx, transport, proveDeviceNonce, setupDeviceNonce, sendMTU, serviceInfoReader, sess, &c); err != nil {
